@@ -1,10 +1,16 @@
 # Case generators (all randomness from one random.Random(seed)).
+# Streams are built from segments of different regimes so that one case exercises many of the situations in which
+# windowed/recursive code typically goes wrong: equal neighbours, an input equal to the one leaving the window,
+# zeros and signed zeros, tiny and huge magnitudes, flat stretches after activity, sign changes, gaps.
 import math
 import random
 from common import Case, INDS, NO_SCALAR, HAS_MULT, nper
 
 SPECIALS = [float("nan"), float("inf"), float("-inf"), 1.7976931348623157e308, -1.7976931348623157e308,
             5e-324, -5e-324, 0.0, -0.0, 2.2250738585072014e-308]
+
+SCALAR_STYLES = ["walk", "uniform", "ties", "mixed", "signed", "grid", "periodic", "tiny", "huge", "flatafter", "zeros", "segments"]
+POSITIVE_STYLES = ["walk", "uniform", "ties", "pgrid", "periodic", "tiny", "huge", "flatafter", "segments"]
 
 
 def rand_price(r, lo=1e-3, hi=1e6, signed=False):
@@ -14,38 +20,74 @@ def rand_price(r, lo=1e-3, hi=1e6, signed=False):
     return x
 
 
-def scalar_stream(r, n, style=None):
-    style = style or r.choice(["walk", "uniform", "ties", "mixed", "signed", "grid"])
+def _segment(r, n, style, p, positive, level):
     xs = []
     if style == "walk":
-        x = rand_price(r, 1, 1000)
+        x = level
         for _ in range(n):
-            x = max(1e-6, x * (1 + r.uniform(-0.05, 0.05)))
+            x = max(level * 1e-3, x * (1 + r.uniform(-0.05, 0.05)))
             xs.append(x)
     elif style == "uniform":
-        for _ in range(n):
-            xs.append(r.uniform(1, 100))
+        xs = [level * r.uniform(0.5, 1.5) for _ in range(n)]
     elif style == "ties":
-        al = [r.uniform(1, 10) for _ in range(3)]
-        for _ in range(n):
-            xs.append(r.choice(al))
+        al = [level * r.uniform(0.9, 1.1) for _ in range(3)]
+        xs = [r.choice(al) for _ in range(n)]
     elif style == "grid":
-        for _ in range(n):
-            xs.append(float(r.randint(-3, 6)) * 0.5)
+        xs = [float(r.randint(-3, 6)) * 0.5 for _ in range(n)]
+    elif style == "pgrid":
+        xs = [float(r.randint(1, 6)) * 0.5 for _ in range(n)]
     elif style == "signed":
-        for _ in range(n):
-            xs.append(rand_price(r, 1e-3, 1e12, signed=True))
+        xs = [rand_price(r, 1e-3, 1e12, signed=True) for _ in range(n)]
+    elif style == "mixed":
+        xs = [r.choice([0.0, -0.0, 1.0, 1.0, -1.0, 2.5, 3e11, r.uniform(-5, 5)]) for _ in range(n)]
+    elif style == "periodic":
+        q = r.choice([p, p, p + 1, max(1, p - 1), 2 * p])
+        base = [level * r.uniform(0.8, 1.2) for _ in range(max(1, q))]
+        for k in range(n):
+            v = base[k % len(base)]
+            if r.random() < 0.15:
+                v = level * r.uniform(0.8, 1.2)
+                base[k % len(base)] = v
+            xs.append(v)
+    elif style == "tiny":
+        sc = 2.0 ** r.randint(-80, -25)
+        xs = [sc * r.uniform(1, 3) for _ in range(n)]
+    elif style == "huge":
+        sc = 2.0 ** r.randint(20, 39)
+        xs = [sc * r.uniform(1, 1.8) for _ in range(n)]
+    elif style == "flatafter":
+        k = r.randint(0, max(1, n // 2))
+        xs = [level * r.uniform(0.5, 1.5) for _ in range(k)]
+        xs += [xs[-1] if xs else level] * (n - k)
+    elif style == "zeros":
+        xs = [r.choice([0.0, 0.0, -0.0, level, level * 0.5]) for _ in range(n)]
     else:
-        for _ in range(n):
-            xs.append(r.choice([0.0, -0.0, 1.0, 1.0, -1.0, 2.5, 3e11, r.uniform(-5, 5)]))
+        raise ValueError(style)
+    if positive:
+        xs = [abs(x) if x != 0 else level for x in xs]
     return xs
 
 
-def valid_bar(r, x=None):
+def scalar_stream(r, n, style=None, p=None, positive=False):
+    p = p or r.choice([1, 2, 3, 4, 5])
+    styles = POSITIVE_STYLES if positive else SCALAR_STYLES
+    style = style or r.choice(styles)
+    level = rand_price(r, 1, 1000)
+    if style != "segments":
+        return _segment(r, n, style, p, positive, level)
+    xs = []
+    while len(xs) < n:
+        seg = r.choice([s for s in styles if s not in ("segments", "signed", "huge", "tiny")] + ["periodic", "flatafter"])
+        m = min(n - len(xs), r.randint(1, 3 * p + 2))
+        xs += _segment(r, m, seg, p, positive, level)
+    return xs
+
+
+def valid_bar(r, x=None, spread=0.03):
     if x is None:
         x = rand_price(r, 1, 1000)
-    h = x * (1 + r.uniform(0, 0.03))
-    l = x * (1 - r.uniform(0, 0.03))
+    h = x * (1 + r.uniform(0, spread))
+    l = x * (1 - r.uniform(0, spread))
     c = l + (h - l) * r.random()
     c = min(max(c, l), h)
     o = l + (h - l) * r.random()
@@ -54,8 +96,12 @@ def valid_bar(r, x=None):
     return (o, h, l, c, v)
 
 
-def bar_stream(r, n, style=None):
-    style = style or r.choice(["walk", "free", "grid", "flatish"])
+BAR_STYLES = ["walk", "free", "grid", "flatish", "segments", "tinybars", "gaps"]
+
+
+def bar_stream(r, n, style=None, p=None):
+    p = p or r.choice([1, 2, 3, 4, 5])
+    style = style or r.choice(BAR_STYLES)
     out = []
     if style == "walk":
         x = rand_price(r, 1, 1000)
@@ -71,13 +117,49 @@ def bar_stream(r, n, style=None):
             h = l + float(r.randint(0, 3))
             c = r.choice([l, h, (l + h) / 2, l + (h - l) * 0.25])
             out.append((c, h, l, c, float(r.randint(0, 3))))
-    else:
+    elif style == "flatish":
         x = rand_price(r, 1, 100)
         for _ in range(n):
             if r.random() < 0.2:
                 x = rand_price(r, 1, 100)
             out.append((x, x, x, x, r.choice([0.0, 5.0])))
-    return out
+    elif style == "tinybars":
+        sc = 2.0 ** r.randint(-70, -30)
+        for _ in range(n):
+            b = valid_bar(r, r.uniform(1, 2), spread=r.choice([0.03, 1e-17, 0.0]))
+            out.append(tuple(v * sc for v in b[:4]) + (b[4],))
+    elif style == "gaps":
+        x = rand_price(r, 5, 500)
+        for _ in range(n):
+            x = x * r.choice([1.0, 1.0, 1.3, 0.7, 1.01])
+            b = valid_bar(r, x, spread=r.choice([0.0, 0.002, 0.05]))
+            out.append(b[:4] + (r.choice([0.0, 0.0, b[4]]),))
+    else:  # segments: valid bars with flat bars inside non-flat windows, repeated bars, zero-volume moves, periodic repeats
+        x = rand_price(r, 1, 1000)
+        hist = []
+        while len(out) < n:
+            kind = r.choice(["walk", "flatbar", "repeat", "zerovol", "periodic", "plateau"])
+            m = min(n - len(out), r.randint(1, 2 * p + 2))
+            for _ in range(m):
+                if kind == "walk":
+                    x = max(1e-3, x * (1 + r.uniform(-0.05, 0.05)))
+                    b = valid_bar(r, x)
+                elif kind == "flatbar":
+                    x = max(1e-3, x * (1 + r.uniform(-0.03, 0.03)))
+                    b = (x, x, x, x, r.choice([0.0, 100.0]))
+                elif kind == "repeat" and out:
+                    b = out[-1]
+                elif kind == "zerovol":
+                    x = max(1e-3, x * (1 + r.uniform(-0.05, 0.05)))
+                    b = valid_bar(r, x)[:4] + (0.0,)
+                elif kind == "periodic" and len(out) >= p:
+                    b = out[-p]
+                elif kind == "plateau":
+                    b = valid_bar(r, x, spread=0.0)
+                else:
+                    b = valid_bar(r, x)
+                out.append(b)
+    return out[:n]
 
 
 def rand_params(r, ind, maxp=8):
@@ -93,13 +175,13 @@ def new_op(slot, ind, params):
     return ("new", slot, ind, params[0], params[1], params[2], params[3])
 
 
-def feed_ops(r, ind, n, slot=0, bars=None, specials=0.0):
+def feed_ops(r, ind, n, slot=0, bars=None, specials=0.0, p=None, positive=False):
     """n feeding ops for indicator `ind`: scalars where it has a scalar path (mixed with bars)."""
     ops = []
     use_bar = ind in NO_SCALAR or (bars if bars is not None else r.random() < 0.4)
     if use_bar:
         kind = r.choice(["b", "b", "i"])
-        st = bar_stream(r, n, "walk" if kind == "i" else None)
+        st = bar_stream(r, n, r.choice(["walk", "segments", "gaps"]) if kind == "i" else None, p=p)
         for b in st:
             if specials and r.random() < specials:
                 b = list(b)
@@ -109,7 +191,7 @@ def feed_ops(r, ind, n, slot=0, bars=None, specials=0.0):
             else:
                 ops.append((kind, slot) + b)
     else:
-        for x in scalar_stream(r, n):
+        for x in scalar_stream(r, n, p=p, positive=positive):
             if specials and r.random() < specials:
                 x = r.choice(SPECIALS)
             ops.append(("n", slot, x))
